@@ -69,7 +69,7 @@ static uint64_t strHash(const char* s)
 // ------------------------------------------------------------------ options
 struct Opt
 {
-	std::string property, tier = "quick", replay, out, only, verifDir = "/verif";
+	std::string property, tier = "quick", replay, out, only, verifDir = "/verif", buildDir;
 	uint64_t seed = 1;
 	int workers = 16;
 	double budget = 0;      // wall seconds for the search phase (0: tier default)
@@ -273,7 +273,23 @@ static void workerHardHandler(const char* cls, const char* key, const char* msg)
 	flushWorker(false);
 }
 
-static void workerMain(const std::vector<Job>& jobs, int w, int W, long startJob, int tier, double deadline, const std::string& sigPath)
+// First-call effects (function-local statics, lazily built tables) would make a run's step count depend
+// on what the process executed before it. Every process that executes counted runs - workers and the
+// isolated children used for shrinking and replay - therefore first executes the same throw-away runs.
+static void warmup(const Scenario* sc, int tier)
+{
+	for (uint64_t k = 0; k < 6; k++)
+	{
+		Plan plan;
+		SchedCfg cfg;
+		derive(sc, 0xfffffff0ULL + k, tier, plan, cfg);
+		cfg.strategy = ST_RUN2BLOCK;
+		RunResult res;
+		runOne(plan, cfg, sc->run, res);
+	}
+}
+
+static void workerMain(const std::vector<Job>& jobs, int w, int W, long startJob, int tier, double deadline, const std::string& sigPath, bool doWarm)
 {
 	setHardFailHandler(workerHardHandler);
 	setCrashWriter(workerCrashWriter);
@@ -285,6 +301,15 @@ static void workerMain(const std::vector<Job>& jobs, int w, int W, long startJob
 	bool truncated = false;
 	double lastFlush = wallNow();
 	uint64_t sinceFlush = 0;
+	if (doWarm)
+	{
+		g_cur[w] = -3;
+		g_curJob = startJob;
+		std::set<const Scenario*> seen;
+		for (auto& j : jobs)
+			if (seen.insert(j.sc).second)
+				warmup(j.sc, tier);
+	}
 	for (long j = startJob; j < (long)jobs.size(); j += W)
 	{
 		if (wallNow() > deadline)
@@ -409,6 +434,7 @@ static void isoCrashWriter(const char* key)
 	(void)!write(g_isoFd, buf, o);
 }
 
+static int g_tier = 0;
 static IsoResult runIsolated(const Scenario* sc, const Plan& plan, const SchedCfg& cfg, double timeoutS = 30)
 {
 	IsoResult r;
@@ -428,6 +454,7 @@ static IsoResult runIsolated(const Scenario* sc, const Plan& plan, const SchedCf
 		setCrashWriter(isoCrashWriter);
 		installCrashHandlers();
 		armSanitizer();
+		warmup(sc, g_tier);
 		RunResult res;
 		runOne(plan, cfg, sc->run, res);
 		JVal j = JVal::obj();
@@ -751,7 +778,7 @@ static JVal replayToJVal(const std::string& prop, const Scenario* sc, uint64_t i
                          const std::string& cls, const std::string& key, const std::string& msg, uint64_t hash, const std::vector<std::string>& tail)
 {
 	JVal j = JVal::obj();
-	j.set("property", prop).set("scenario", sc->name).set("flavour", VERIF_FLAVOUR).set("verif_seed", (int64_t)opt.seed).set("run", (int64_t)idx);
+	j.set("property", prop).set("scenario", sc->name).set("flavour", VERIF_FLAVOUR).set("verif_seed", (int64_t)opt.seed).set("run", (int64_t)idx).set("tier", g_tier);
 	JVal s = JVal::obj();
 	s.set("strategy", cfgStrategyName(cfg.strategy)).set("param", cfg.param);
 	char b[40];
@@ -806,6 +833,8 @@ static int doReplay(const std::string& path, bool quiet, std::string* why = null
 	Plan plan;
 	if (!j.get("plan") || !planFromJVal(*j.get("plan"), plan))
 		return 2;
+	g_tier = (int)j.geti("tier", 0);
+	opt.seed = (uint64_t)j.geti("verif_seed", 1);
 	SchedCfg cfg;
 	const JVal* s = j.get("sched");
 	std::string stn = s->gets("strategy");
@@ -862,7 +891,7 @@ static int replayInFreshProcess(const std::string& path)
 		dup2(nul, 1);
 		dup2(nul, 2);
 		std::string exe = selfExe();
-		execl(exe.c_str(), exe.c_str(), "--replay", path.c_str(), "--verif-dir", opt.verifDir.c_str(), (char*)0);
+		execl(exe.c_str(), exe.c_str(), "--replay", path.c_str(), "--verif-dir", opt.verifDir.c_str(), "--build-dir", opt.buildDir.c_str(), (char*)0);
 		_exit(3);
 	}
 	int status = 0;
@@ -893,6 +922,7 @@ int main(int argc, char** argv)
 		else if (a == "--budget") opt.budget = atof(next().c_str());
 		else if (a == "--runs-scale") opt.runsScale = atof(next().c_str());
 		else if (a == "--verif-dir") opt.verifDir = next();
+		else if (a == "--build-dir") opt.buildDir = next();
 		else if (a == "--list") opt.list = true;
 		else if (a == "--no-shrink") opt.noShrink = true;
 		else if (a == "--job") opt.oneJob = atol(next().c_str());
@@ -903,6 +933,8 @@ int main(int argc, char** argv)
 			return 2;
 		}
 	}
+	if (opt.buildDir.empty())
+		opt.buildDir = opt.verifDir + "/build";
 	if (opt.workers < 1)
 		opt.workers = 1;
 	if (opt.workers > 64)
@@ -933,6 +965,7 @@ int main(int argc, char** argv)
 		return 2;
 	}
 	int tier = opt.tier == "thorough" ? 1 : 0;
+	g_tier = tier;
 	std::vector<Job> jobs;
 	std::vector<const Scenario*> scs;
 	for (auto& s : scenarios())
@@ -975,6 +1008,7 @@ int main(int argc, char** argv)
 		bool pf;
 		static volatile long dummy[64];
 		g_cur = dummy;
+		warmup(jb.sc, tier);
 		executeJob(jb.sc, jb.idx, tier, res, plan, cfg, pf);
 		printf("job %ld scenario %s idx %llu strategy %s steps %llu switches %llu hash %016llx\nplan: %s\n", opt.oneJob, jb.sc->name, (unsigned long long)jb.idx,
 		       stratName(cfg).c_str(), (unsigned long long)res.steps, (unsigned long long)res.switches, (unsigned long long)res.hash, planBrief(plan, 3000).c_str());
@@ -989,11 +1023,12 @@ int main(int argc, char** argv)
 	double budget = opt.budget > 0 ? opt.budget : (tier ? 900.0 : 60.0);
 	double deadline = t0 + budget;
 	int W = opt.workers;
-	std::string tmpDir = opt.verifDir + "/build/tmp";
-	mkdir((opt.verifDir + "/build").c_str(), 0777);
+	std::string tmpDir = opt.buildDir + "/tmp";
+	std::string replayDir = opt.buildDir == opt.verifDir + "/build" ? opt.verifDir + "/replays" : opt.buildDir + "/replays";
+	mkdir(opt.buildDir.c_str(), 0777);
 	mkdir(tmpDir.c_str(), 0777);
-	mkdir((opt.verifDir + "/build/logs").c_str(), 0777);
-	mkdir((opt.verifDir + "/replays").c_str(), 0777);
+	mkdir((opt.buildDir + "/logs").c_str(), 0777);
+	mkdir(replayDir.c_str(), 0777);
 	char sigPath[512];
 	snprintf(sigPath, sizeof sigPath, "%s/sig.%s.%s.%d", tmpDir.c_str(), opt.property.c_str(), VERIF_FLAVOUR, (int)getpid());
 	unlink(sigPath);
@@ -1014,7 +1049,7 @@ int main(int argc, char** argv)
 	uint64_t workerDeaths = 0;
 	std::map<long, std::pair<uint64_t, uint64_t>> hashes;
 
-	auto startWorker = [&](int w, long startJob) {
+	auto startWorker = [&](int w, long startJob, bool doWarm = true) {
 		int pfd[2];
 		if (pipe(pfd))
 			exit(2);
@@ -1041,13 +1076,13 @@ int main(int argc, char** argv)
 			else
 				setSpin(200);
 			char lp[512];
-			snprintf(lp, sizeof lp, "%s/build/logs/%s.%s.w%d.err", opt.verifDir.c_str(), opt.property.c_str(), VERIF_FLAVOUR, w);
+			snprintf(lp, sizeof lp, "%s/logs/%s.%s.w%d.err", opt.buildDir.c_str(), opt.property.c_str(), VERIF_FLAVOUR, w);
 			int lf = open(lp, O_WRONLY | O_CREAT | O_APPEND, 0666);
 			if (lf >= 0)
 				dup2(lf, 2);
 			char sp[600];
 			snprintf(sp, sizeof sp, "%s.%d", sigPath, w);
-			workerMain(jobs, w, W, startJob, tier, deadline, sp);
+			workerMain(jobs, w, W, startJob, tier, deadline, sp, doWarm);
 			_exit(0);
 		}
 		close(pfd[1]);
@@ -1059,7 +1094,7 @@ int main(int argc, char** argv)
 	for (int w = 0; w < W; w++)
 	{
 		char lp[512];
-		snprintf(lp, sizeof lp, "%s/build/logs/%s.%s.w%d.err", opt.verifDir.c_str(), opt.property.c_str(), VERIF_FLAVOUR, w);
+		snprintf(lp, sizeof lp, "%s/logs/%s.%s.w%d.err", opt.buildDir.c_str(), opt.property.c_str(), VERIF_FLAVOUR, w);
 		unlink(lp);
 		startWorker(w, w);
 	}
@@ -1216,8 +1251,17 @@ int main(int argc, char** argv)
 				}
 			}
 			long nextJob = cur >= 0 ? cur + W : (long)jobs.size();
+			bool warmDied = cur == -3;
+			if (warmDied)
+			{
+				// died in the warm-up runs: go on without them (the failure itself was reported through the H line, if any)
+				nextJob = w;
+				for (auto& f : fails)
+					if (f.hard)
+						nextJob = (long)jobs.size(); // a hard failure is already on record: no point in running this worker
+			}
 			if (ws[w].restarts++ < 2000 && nextJob < (long)jobs.size() && wallNow() < deadline)
-				startWorker(w, nextJob);
+				startWorker(w, nextJob, !warmDied);
 			else
 			{
 				ws[w].done = true;
@@ -1375,7 +1419,7 @@ int main(int argc, char** argv)
 		for (auto& c : keyFile)
 			if (!isalnum((unsigned char)c))
 				c = '_';
-		snprintf(rp, sizeof rp, "%s/replays/%s-%s-%s-%llu.json", opt.verifDir.c_str(), opt.property.c_str(), f.scenario.c_str(), keyFile.substr(0, 40).c_str(), (unsigned long long)f.idx);
+		snprintf(rp, sizeof rp, "%s/%s-%s-%s-%llu.json", replayDir.c_str(), opt.property.c_str(), f.scenario.c_str(), keyFile.substr(0, 40).c_str(), (unsigned long long)f.idx);
 		JVal rj = replayToJVal(opt.property, sc, f.idx, sh.plan, sh.cfg, log, f.cls, f.key, msg, hash, tail);
 		if (!fr.ok)
 		{
